@@ -184,7 +184,17 @@ def run(ctx):
             ctx.violation(key, f"hydrogens built after rotation {eqmeta[i]['rotation']} differ from the rotated hydrogens: "
                                f"{eq[i]['hydB']} vs {eq[i]['hydA']}", {"case": eqmeta[i]})
     # ---- T -----------------------------------------------------------------------------
+    def with_mse(text):
+        out = []
+        for ln in text.splitlines():
+            if C.is_atom(ln) and ln[17:20] == "MET" and ln[21] == "A" and int(ln[22:26]) == 46:
+                ln = "HETATM" + ln[6:17] + "MSE" + ln[20:]
+                if ln[12:16].strip() == "SD":
+                    ln = ln[:12] + "SE  " + ln[16:76] + "SE" + ln[78:]
+            out.append(ln)
+        return "\n".join(out) + "\n"
     structures = [("1HPX-protein", c04.protein_only(C.test_pdb_text("1HPX"))), ("3SGB-subset", C.test_pdb_text("3SGB-subset")),
+                  ("1HPX-A-MSE46", with_mse(c04.protein_only("\n".join(C.chain_lines("1HPX", "A")) + "\nTER   \n"))),
                   ("frag-3SGB-E0+40", C.fragment("3SGB", "E", 0, 40))]
     if ctx.thorough():
         structures += [("3SGB", C.test_pdb_text("3SGB")), ("1FTJ-protein", c04.protein_only(C.test_pdb_text("1FTJ-Chain-A"))),
@@ -229,7 +239,10 @@ def run(ctx):
             pass
         bad_warn = [w for w in rr.warnings if "issing atoms or failed protonation" in w[1]]
         ctx.extra.setdefault("protonation_warnings", {})[name] = len(bad_warn)
-        # equivariance under lattice rotations
+        # equivariance under lattice rotations (amino-acid structures: a terminal sp3 atom of a hetero group gets a
+        # frame-dependent rotamer by design - the exclusion C04's statement spells out)
+        if any(ln.startswith("HETATM") for ln in text.splitlines()):
+            continue
         for (p, s) in (allrots if ctx.thorough() else rng.sample(allrots, 3)):
             t = c04.translation_for(text, p, s, ("unit", "halfcell", "zero"))
             mt = c04.move_text(text, p, s, t)
@@ -276,10 +289,11 @@ SIDE = {"HIS": {"ND1": 1, "NE2": 1}, "ARG": {"NE": 1, "NH1": 2, "NH2": 2}, "ASN"
 def complement_table(res_list):
     """{(residue pos, atom name): expected hydrogens} for complete residues whose chain neighbours are present."""
     out = {}
-    prot = [r for r in res_list if r["het"] == 0]
+    # chain members: amino-acid residues, also when written as HETATM (selenomethionine, phosphoserine ...)
+    prot = [r for r in res_list if r["het"] == 0 or {"N", "CA", "C"} <= set(r["names"])]
     for k, r in enumerate(prot):
         names = set(r["names"])
-        if len(set(r["alts"])) > 1:
+        if len(set(r["alts"])) > 1 or r["het"] == 1:
             continue
         prev = prot[k - 1] if k > 0 else None
         has_prev = (prev is not None and r["ter"] == 0 and prev["chain"] == r["chain"] and prev["model"] == r["model"]
